@@ -49,6 +49,26 @@ def race_reports(pattern):
     return list(out.values())
 
 
+def read_exited(run, path):
+    """events of a driver run; exit code 1 without a Go panic is os.Exit(1) of the library itself (duplicate
+    root path in Add): an event for the monitor, any other failure is an infrastructure failure"""
+    p = run.last_harness
+    evs = []
+    for line in open(path, errors="replace"):
+        line = line.strip()
+        if line:
+            try:
+                evs.append(json.loads(line))
+            except ValueError:
+                pass      # last line cut off by the exit
+    if p.returncode == 0:
+        return evs
+    if p.returncode == 1 and "panic:" not in p.stderr and "HARNESS-FATAL" not in p.stderr:
+        evs.append({"e": "cexit", "code": 1})
+        return evs
+    raise Infra("conc driver failed (exit %d):\n%s" % (p.returncode, (p.stdout + p.stderr)[-3000:]))
+
+
 def check(run, replay=None):
     tier = run.tier
     write_mix_module(run)
@@ -75,12 +95,12 @@ def check(run, replay=None):
     plan_race = {"rounds": rounds, "servers": servers, "ops": ops, "pairs": PAIRS, "duo": duo}
     vh_race = build_harness(run, race=True)
     path = run_harness(run, vh_race, "conc", plan_race, "conc-race", seed=run.seed * 1000 + 1,
-                       env_extra={"GORACE": "log_path=%s halt_on_error=0 exitcode=0" % racelog}, timeout=3000)
-    events += read_ndjson(path)
+                       env_extra={"GORACE": "log_path=%s halt_on_error=0 exitcode=0" % racelog}, timeout=3000, allow_fail=True)
+    events += read_exited(run, path)
     vh = build_harness(run)
     path = run_harness(run, vh, "conc", {"rounds": rounds * 2, "servers": servers * 2, "ops": ops, "pairs": [], "duo": duo * 2}, "conc-plain",
-                       seed=run.seed * 1000 + 2, timeout=3000)
-    events += read_ndjson(path)
+                       seed=run.seed * 1000 + 2, timeout=3000, allow_fail=True)
+    events += read_exited(run, path)
     reports = race_reports(racelog)
     for rep in reports:
         events.append({"e": "crace", "frames": rep["frames"], "lines": rep["lines"]})
